@@ -27,10 +27,12 @@ EXTENDS Integers, Sequences, FiniteSets, TLC
 
 CONSTANTS
     QueueCap,   \* code: cap(reqCh) in Proceed ("allow pipelining up to 16 requests"); measured on the compiled code
-    ReqMsgs,    \* names of the request records the client may send
-    RespMsgs,   \* names of the response records the origin may send
-    ReqDef,     \* [ReqMsgs -> request record]
-    RespDef,    \* [RespMsgs -> response record]
+    ReqMsgs,    \* names (1..n) of the request records the client may send
+    RespMsgs,   \* names (1..n) of the response records the origin may send
+    ReqDef,     \* [ReqMsgs -> request record] (a tuple)
+    RespDef,    \* [RespMsgs -> response record] (a tuple)
+    ReqNext,    \* subset of ReqMsgs the client may send after its first message (= ReqMsgs except in lattice runs)
+    RespNext,   \* subset of RespMsgs the origin may send after its first message
     MaxReq,     \* bound on the number of client messages
     MaxResp,    \* bound on the number of origin messages (interim + final)
     AuthModes,  \* subset of BOOLEAN: is basic authentication configured (usernameByToken # nil)
@@ -142,6 +144,7 @@ Init ==
 (* Environment: client                                                       *)
 ClientSend(id) ==
     /\ EnvOK /\ ~Terminal /\ ~cclosed /\ Len(sent) < MaxReq
+    /\ sent # <<>> => id \in ReqNext
     /\ sent' = Append(sent, id)
     /\ act' = [n |-> "ClientSend", i |-> Len(sent) + 1, msg |-> ReqDef[id]]
     /\ UNCHANGED <<authOn, phase, cnext, cclosed, cdead, fixedHost, first, fpc, fcur, reqQ, qclosed, nann,
@@ -361,6 +364,7 @@ Finish ==
 OriginSend(id) ==
     /\ EnvOK /\ phase = "fwd" /\ ~oclosedW /\ rpc # "done" /\ Len(osent) < MaxResp
     /\ NFinals < Len(orx) \/ (NFinals = Len(orx) /\ fpc = "done")
+    /\ osent # <<>> => id \in RespNext
     /\ LET i == IF NFinals < Len(orx) THEN orx[NFinals + 1] ELSE 0
            s == RespDef[id] IN
        /\ s.bd = "eof" => i > 0 /\ Rq(i).m # "HEAD" /\ s.st \in {"200", "404"}
